@@ -384,23 +384,103 @@ func (x *Exec) addObl(st *State, name, kind string, goal *Term, pos token.Pos, l
 	}
 	if goal.IsTrue() {
 		o.Trivial = true
-	} else if sks := x.aidPoints(st, goal); len(sks) > 0 && len(sks) <= 8 {
-		// instantiation aid: consequences of quantified hypotheses at the goal's skolem constants
-		budget := 48
-		for _, a := range st.pc {
-			if budget <= 0 {
-				break
-			}
-			if !a.hasForall() {
-				continue
-			}
-			ins := x.tb.InstantiateForalls(a, sks, 2, budget)
-			budget -= len(ins)
-			o.Aid = append(o.Aid, ins...)
-		}
+	} else {
+		o.Aid = x.instantiationAid(st, goal)
 	}
 	x.obls = append(x.obls, o)
 	return o
+}
+
+// instantiationAid: a small saturation loop standing in for E-matching.  The quantified hypotheses and the negated
+// goal are instantiated (positive occurrences only, so every instance is a consequence) at: the skolem constants of the
+// goal, witnesses of hypothesis-side existentials, 0, and the points where one of their array reads f(arg(v)) meets a
+// ground read f(t) of the goal or of an earlier instance.
+func (x *Exec) instantiationAid(st *State, goal *Term) []*Term {
+	tb := x.tb
+	var hyps []*Term
+	ng := tb.Not(goal)
+	for i := len(st.pc) - 1; i >= 0; i-- {
+		if st.pc[i].hasQ {
+			hyps = append(hyps, st.pc[i])
+		}
+	}
+	if len(hyps) == 0 && !ng.hasQ {
+		return nil
+	}
+	gsk := tb.Skolems(goal) // the goal's skolem constants: points for the hypotheses
+	if len(gsk) > 6 {
+		gsk = gsk[:6]
+	}
+	// witnesses of hypothesis-side existentials (and 0): points for the universals of the negated goal
+	wit := []*Term{}
+	if ng.hasQ {
+		for _, w := range x.aidPoints(st, tb.True()) {
+			if len(wit) < 8 {
+				wit = append(wit, w)
+			}
+		}
+		wit = append(wit, tb.BVi(64, 0))
+	}
+	apps := map[string][]*Term{}
+	tb.GroundApps(goal, apps)
+	// array reads in the most recent ground facts of the path (branch conditions of the loop body / callee results)
+	for i, n := len(st.pc)-1, 0; i >= 0 && n < 40; i-- {
+		if !st.pc[i].hasQ {
+			tb.GroundApps(st.pc[i], apps)
+			n++
+		}
+	}
+	var out []*Term
+	for pass := 0; pass < 3; pass++ {
+		out = out[:0]
+		for _, f := range hyps {
+			if in := tb.InstAll(f, gsk, apps, 3, 1); in != f {
+				out = append(out, in)
+			}
+		}
+		if ng.hasQ {
+			if in := tb.InstAll(ng, wit, apps, 3, 1); in != ng {
+				out = append(out, in)
+			}
+		}
+		if pass == 2 {
+			break
+		}
+		// witnesses and ground reads produced by this pass feed the next one
+		grew := false
+		have := map[int]bool{}
+		for _, p := range wit {
+			have[p.id] = true
+		}
+		for _, in := range out {
+			w := tb.WeakenQ(in, 1)
+			n0 := 0
+			for _, v := range apps {
+				n0 += len(v)
+			}
+			tb.GroundApps(w, apps)
+			n1 := 0
+			for _, v := range apps {
+				n1 += len(v)
+			}
+			if n1 > n0 {
+				grew = true
+			}
+			if ng.hasQ {
+				for _, s := range tb.Skolems(w) {
+					if !have[s.id] && len(wit) < 14 && strings.Contains(s.name, "!skf") {
+						have[s.id] = true
+						wit = append(wit, s)
+						grew = true
+					}
+				}
+			}
+		}
+		if !grew {
+			break
+		}
+	}
+	return out
 }
 
 // aidPoints: ground index terms at which quantified hypotheses are instantiated for the aided portfolio arm:
@@ -411,12 +491,14 @@ func (x *Exec) aidPoints(st *State, goal *Term) []*Term {
 	for _, s := range sks {
 		seen[s.id] = true
 	}
-	for _, a := range st.pc {
+	// witnesses of hypothesis-side existentials and CRC frame-lemma indices, most recent first
+	for i := len(st.pc) - 1; i >= 0 && len(sks) < 12; i-- {
+		a := st.pc[i]
 		if a.hasQ {
 			continue
 		}
 		for _, s := range x.tb.Skolems(a) {
-			if strings.HasPrefix(s.name, "crc.k") && !seen[s.id] {
+			if !seen[s.id] && len(sks) < 12 {
 				seen[s.id] = true
 				sks = append(sks, s)
 			}
@@ -940,6 +1022,33 @@ func (x *Exec) runBlock(fr *Frame, b *ssa.BasicBlock, pred *ssa.BasicBlock, st *
 			}
 		}
 		x.havocLoopMem(fr, b, ord, lc, st)
+		if lc != nil && lc.Forget {
+			// forget also the layered history of array contents: every array object gets fresh base contents
+			// (weakening; ground facts about single objects are kept, what the body needs about arrays is in the invariants)
+			for o, os := range st.mem {
+				if !o.Array || os.Leaves == nil || o.Global {
+					continue
+				}
+				dirty := false
+				for _, c := range os.Leaves {
+					if c.Kind != cBase {
+						dirty = true
+					}
+				}
+				if !dirty {
+					continue
+				}
+				n := &ObjState{Leaves: map[string]*Content{}, ALen: os.ALen, Cells: os.Cells}
+				for k, c := range os.Leaves {
+					if c.Kind == cBase {
+						n.Leaves[k] = c
+					} else {
+						n.Leaves[k] = x.ContentBase(fmt.Sprintf("fg%d.%s%s", ord, o.Name, k), c.Sort)
+					}
+				}
+				st.mem[o] = n
+			}
+		}
 		st.cuts[key] = true
 		snap := map[*Object]*ObjState{}
 		for o, s := range st.mem {
@@ -954,6 +1063,16 @@ func (x *Exec) runBlock(fr *Frame, b *ssa.BasicBlock, pred *ssa.BasicBlock, st *
 			fr.loopGhostPre = map[int]map[string]SVal{}
 		}
 		fr.loopGhostPre[ord] = gsnap
+		if lc != nil && lc.Forget {
+			// weakening: quantified facts from before the loop are dropped; the invariants must carry what the body needs
+			var keep []*Term
+			for _, a := range st.pc {
+				if !a.hasQ {
+					keep = append(keep, a)
+				}
+			}
+			st.pc = keep
+		}
 		x.assumeInvariants(fr, b, ord, lc, st)
 	} else {
 		for phi, v := range phiVals {
